@@ -3,6 +3,7 @@
 -/
 import Driver.Util
 import Driver.More
+import Driver.Ext
 
 open Saltpack
 
@@ -180,7 +181,10 @@ where
   handleMore (toks : List String) : String :=
     match Driver2.handle toks with
     | some s => s
-    | none => bad
+    | none =>
+      match DriverExt.handle toks with
+      | some s => s
+      | none => bad
 
 partial def loop (h : IO.FS.Stream) (out : IO.FS.Stream) : IO Unit := do
   let line ← h.getLine
